@@ -9,40 +9,40 @@ TECH = "deterministic simulation with fault injection: seeded search over choice
 CLAIMED = {
     # id: (built, category, design_ref, text, note)
     "C01": (True, "exploration", "DESIGN.md §3 C01",
-            "Real Connection::receive_call/receive_reply over a stub read half; 40+ corpus streams with every single and every pair of cut positions, plus 1.5e5 (quick) / 3e6 (thorough) seeded runs varying frames (valid, wrong-shape, malformed, whitespace-padded, six target types, sizes on the 256-byte growth steps), delivery partition, short reads, pending-despite-data and poll order; each result compared with a per-frame reference decode. Sampling, not proof. Per receive the tape also picks the public entry point (Connection's forwarding method, the read half, split + join first, a chain's reply stream); string contents cover ASCII, dense multi-byte characters with corner-case UTF-8 encodings and JSON escape sequences; one script in sixteen is long (up to 300 frames) and one in sixteen carries frames of 1..90 kB; zlink's log statements run with a tape-chosen level (off / WARN / all / all formatted).",
+            "Real Connection::receive_call/receive_reply over a stub read half; 40+ corpus streams with every single and every pair of cut positions, plus 1.5e5 (quick) / 3e6 (thorough) seeded runs varying frames (valid, wrong-shape, malformed, whitespace-padded, six target types, sizes on the 256-byte growth steps), delivery partition, short reads, pending-despite-data and poll order; each result compared with a per-frame reference decode. Sampling, not proof. Per receive the tape also picks the public entry point (Connection's forwarding method, the read half, split + join first, a chain's reply stream); string contents cover ASCII, dense multi-byte characters with corner-case UTF-8 encodings and JSON escape sequences; one script in sixteen is long (up to 300 frames) and one in sixteen carries frames of 1..90 kB; zlink's log statements run with a tape-chosen level (off / WARN / all / all formatted). Since round i: nine target types (added: a call type filled through deserialize_bytes, serde_json::Value, a reply/error pair that owns and borrows at once), documents cut in two by a NUL; every check also runs its systematic part and a quarter of its seeded runs on a second build of the simulator and of zlink without debug assertions and overflow checks (opt-level 3).",
             "Trusts serde_json::from_slice as the per-frame reference; stub honours the ReadHalf contract; streams end on a frame boundary."),
     "C07": (True, "exploration", "DESIGN.md §3 C07",
-            "C01's scripts and oracle with the pending receive future dropped at tape-chosen suspension points (every k-th pending poll for every k on the corpus delivered byte-by-byte and with all single/double cuts; probabilistic beyond) and a new receive started, possibly for another type. Receives also go through the read half, after split + join, and through chains' reply streams (an abandoned next() drops the stream). One seeded run in 24 asks the same question over the real tokio / smol Unix sockets (duplex connections, receivers abandoning pending receives at the transports' own suspension points).",
+            "C01's scripts and oracle with the pending receive future dropped at tape-chosen suspension points (every k-th pending poll for every k on the corpus delivered byte-by-byte and with all single/double cuts; probabilistic beyond) and a new receive started, possibly for another type. Receives also go through the read half, after split + join, and through chains' reply streams (an abandoned next() drops the stream). One seeded run in 24 asks the same question over the real tokio / smol Unix sockets (duplex connections, receivers abandoning pending receives at the transports' own suspension points). Since round i: C01's added target types and NUL-cut documents; the optimised-build pass (no debug assertions, no overflow checks) repeats the systematic part and a quarter of the seeded runs.",
             "Stub read future transfers bytes only in the poll that returns Ready (cancel-safe as the trait demands), so any loss is zlink's."),
     "C02": (True, "exploration", "DESIGN.md §3 C02",
-            "Real enqueue_call/send_call/send_reply/send_error/flush on a Connection whose write half records every write call; every free-space value 0..=600 x 7 size/refusal classes systematically, plus 1.2e5 (quick) / 3e6 (thorough) seeded histories of up to 31 operations with sizes aimed at the buffer end and growth steps, refused serialisations at any position, write stalls, a failing write and abandoned flushes; compared op by op with a list-of-pending-frames reference writer (frame count, order, one write per flush, JSON value of each frame). Histories also contain chain_call/append/send operations with refused links at any position, write_mut() entry points and split + join between operations; one message in five is a shape-zoo value (serde data-model shapes: empty and non-empty tuple/struct variants, maps keyed by strings, integers, chars, nested options, tagged and untagged enums, flatten, i128, floats, chars) sent as call, reply or error parameters.",
+            "Real enqueue_call/send_call/send_reply/send_error/flush on a Connection whose write half records every write call; every free-space value 0..=600 x 7 size/refusal classes systematically, plus 1.2e5 (quick) / 3e6 (thorough) seeded histories of up to 31 operations with sizes aimed at the buffer end and growth steps, refused serialisations at any position, write stalls, a failing write and abandoned flushes; compared op by op with a list-of-pending-frames reference writer (frame count, order, one write per flush, JSON value of each frame). Histories also contain chain_call/append/send operations with refused links at any position, write_mut() entry points and split + join between operations; one message in five is a shape-zoo value (serde data-model shapes: empty and non-empty tuple/struct variants, maps keyed by strings, integers, chars, nested options, tagged and untagged enums, flatten, i128, floats, chars) sent as call, reply or error parameters. Since round i: the optimised-build pass (second build of simulator and zlink, opt-level 3, no debug assertions, no overflow checks) repeats the systematic part and a quarter of the seeded histories.",
             "Frames are compared by JSON value (byte identity with serde_json is C03, not claimed). Stub writes are all-or-nothing."),
     "C06": (True, "exploration", "DESIGN.md §3 C06",
-            "Real chain_call/append/send stream and a proxy #[zlink(more)] method against a scripted conforming server: every chain of up to 3 (quick) / 4 (thorough) calls over {plain, oneway, more} x 4 reply styles x 3 deliveries systematically, plus 1.2e5 / 2e6 seeded chains of up to 6 calls with trailing frames of a later exchange and arbitrary chunking. Oracle: one write with the calls in order and right flags; yielded items = owed replies; quiescence with the stream still pending and nothing owed = blocked-on-unowed-reply; later frames still readable. Also: refused submissions on the same connection before the chain, org.varlink.service error as the last owed reply, four spellings of every frame (member order, blanks, escaped solidus), chains of up to 150 calls and more-calls with up to 199 continuing replies (scale swarm).",
+            "Real chain_call/append/send stream and a proxy #[zlink(more)] method against a scripted conforming server: every chain of up to 3 (quick) / 4 (thorough) calls over {plain, oneway, more} x 4 reply styles x 3 deliveries systematically, plus 1.2e5 / 2e6 seeded chains of up to 6 calls with trailing frames of a later exchange and arbitrary chunking. Oracle: one write with the calls in order and right flags; yielded items = owed replies; quiescence with the stream still pending and nothing owed = blocked-on-unowed-reply; later frames still readable. Also: refused submissions on the same connection before the chain, org.varlink.service error as the last owed reply, four spellings of every frame (member order, blanks, escaped solidus), chains of up to 150 calls and more-calls with up to 199 continuing replies (scale swarm). Since round i: the check is compiled for two instantiations of the reply/error type parameters (first tape value picks one; the systematic part runs for both); serial histories: one long-lived connection used for 40..230 chains with ordinary receives in between, early big replies, streams dropped before they are drained, judged by a global FIFO oracle; optimised-build pass.",
             "Scripted server is conforming and answers only after the whole chain was written."),
     "C11": (True, "exploration", "DESIGN.md §3 C11",
-            "Same drivers with reply/error types that borrow &str from the receive buffer; the harness holds every yielded item and re-reads all of them after each further item and at the end, for reply sizes inside 256 bytes / one growth step / several and deliveries in one read / one per reply / random. The violation class is computed from the history (overwritten or reallocated by a transport read issued while the item was held = known finding F4; changed without any transport read = always an alarm). Also: org.varlink.service errors anywhere in the reply sequence, frames of a later exchange behind the replies, escaped strings with a Cow<str> target (only genuinely borrowed items are watched), reply bursts of 100..250 kB, and a read-buffer observation hook that tells growth-while-held (known finding) from change-without-read (alarm).",
+            "Same drivers with reply/error types that borrow &str from the receive buffer; the harness holds every yielded item and re-reads all of them after each further item and at the end, for reply sizes inside 256 bytes / one growth step / several and deliveries in one read / one per reply / random. The violation class is computed from the history (overwritten or reallocated by a transport read issued while the item was held = known finding F4; changed without any transport read = always an alarm). Also: org.varlink.service errors anywhere in the reply sequence, frames of a later exchange behind the replies, escaped strings with a Cow<str> target (only genuinely borrowed items are watched), reply bursts of 100..250 kB, and a read-buffer observation hook that tells growth-while-held (known finding) from change-without-read (alarm). Since round i: two instantiations of the reply/error type parameters (reply with drop glue + error without; both with drop glue and both borrowing); optimised-build pass.",
             "Buffer growth is observed at the read seam (end address of the slice, or a read that fills its window); held data is only dereferenced when no growth was observed since it was yielded."),
     "C17": (True, "exploration", "DESIGN.md §3 C17",
-            "Hook-lowered limit L (1..64 KiB; thorough adds runs at the production 100 MiB): every size within +-3 of every multiple of 256 up to L+512, inbound (valid frame, unterminated filler; three chunkings) and outbound (empty buffer, after small enqueued messages), plus seeded sizes/chunkings and pipelined bursts of small frames. Oracle: accept band / refuse band with Error::BufferOverflow, nothing of a refused message on the transport, connection usable afterwards, bytes consumed before an overflow <= L+256. Also: an outbound pipeline direction (hundreds of messages enqueued without a flush, limits up to 3 MiB that are not powers of two), a burst of small frames followed by a frame that never ends, pending receives abandoned and started over in one seeded run of three, and a memory bound stated without reference to the implementation: at every transport read, bytes read - bytes handed to the application + window offered <= L + 256.",
+            "Hook-lowered limit L (1..64 KiB; thorough adds runs at the production 100 MiB): every size within +-3 of every multiple of 256 up to L+512, inbound (valid frame, unterminated filler; three chunkings) and outbound (empty buffer, after small enqueued messages), plus seeded sizes/chunkings and pipelined bursts of small frames. Oracle: accept band / refuse band with Error::BufferOverflow, nothing of a refused message on the transport, connection usable afterwards, bytes consumed before an overflow <= L+256. Also: an outbound pipeline direction (hundreds of messages enqueued without a flush, limits up to 3 MiB that are not powers of two), a burst of small frames followed by a frame that never ends, pending receives abandoned and started over in one seeded run of three, and a memory bound stated without reference to the implementation: at every transport read, bytes read - bytes handed to the application + window offered <= L + 256. Since round i: the optimised-build pass (no debug assertions, no overflow checks) repeats the boundary sweeps and a quarter of the seeded runs.",
             "size == L-1 is a don't-care (the statement does not say whether the terminator counts). The limit value is set through the cfg(zlink_verif) hook; the comparison sites are the production ones."),
     "C08": (True, "exploration", "DESIGN.md §3 C08",
-            "Real Server::run over stub listener/sockets/service: every interleaving of arrivals, frame deliveries and closes for 12 two-client shapes (systematic), plus 1e5 / 2e6 seeded worlds of 1..4 clients x 0..5 calls (plain, oneway, error, slow; pipelined or ping-pong) with arbitrary fragmentation, short reads, suspensions and environment events inside seam calls. Oracle: each client's received frames equal the sequential reference execution of the pure service for that client; every frame carries the client's id; each call handled once, in order; connection ids distinct. Also: a client is, by tape, a byte-level script or a real zlink client (low-level API, proxy methods, chains); scale swarm (8..40 clients, one client with 30..200 calls, payloads around 2^16..1 MiB, one server instance living through up to 66 000 sequential connections); payloads with characters the serializer must escape (incl. U+0000) and corner-case multi-byte characters; decode-level faults (garbage, unknown method, wrong types, wrong shape) in one script of five with the oracle 'a call the service handled is owed its answer'; cooperative-yield transport; log statements run with a tape-chosen level.",
+            "Real Server::run over stub listener/sockets/service: every interleaving of arrivals, frame deliveries and closes for 12 two-client shapes (systematic), plus 1e5 / 2e6 seeded worlds of 1..4 clients x 0..5 calls (plain, oneway, error, slow; pipelined or ping-pong) with arbitrary fragmentation, short reads, suspensions and environment events inside seam calls. Oracle: each client's received frames equal the sequential reference execution of the pure service for that client; every frame carries the client's id; each call handled once, in order; connection ids distinct. Also: a client is, by tape, a byte-level script or a real zlink client (low-level API, proxy methods, chains); scale swarm (8..40 clients, one client with 30..200 calls, payloads around 2^16..1 MiB, one server instance living through up to 66 000 sequential connections); payloads with characters the serializer must escape (incl. U+0000) and corner-case multi-byte characters; decode-level faults (garbage, unknown method, wrong types, wrong shape) in one script of five with the oracle 'a call the service handled is owed its answer'; cooperative-yield transport; log statements run with a tape-chosen level. Since round i: the stub service is generic over instantiations of the Service trait's associated types, drawn per world (derived borrowing call type + owned reply + concrete stream struct; call decoded by way of serde_json::Value + reply borrowing from the service + Pin<Box<dyn Stream>>; zero-sized reply stream type), plus worlds whose service ignores the content of calls (deserialize_ignored_any) where only the envelope's flags decide what is owed; optimised-build pass.",
             "Service is pure and stamps (cid, seq) into every reply, so cross-delivery and reordering are visible in the bytes. Writes eventually complete."),
     "C09": (True, "fault_enumeration", "DESIGN.md §3 C09",
-            "C08's world with 1..3 healthy and 1..2 faulty clients and an after-the-fault probe connection. Enumerated: 9 fault kinds x 3 positions x every interleaving (to depth 6 quick / 8 thorough environment events) with a healthy client; seeded beyond with several faults per client. Oracle: healthy clients' output equals the reference (and, in a quarter of the runs, is byte-identical to a re-execution without the faulty clients under another schedule); server future still pending; probe connection served; no foreign frames anywhere. Also: calls without `more` that the service answers through a one-item stream (deferred answers), service streams with truthful size_hint, long-lived server instances (up to 66 000 sequential faulty/healthy connections), and zlink's log statements evaluated at WARN / all / all formatted in a tape-chosen share of the runs.",
+            "C08's world with 1..3 healthy and 1..2 faulty clients and an after-the-fault probe connection. Enumerated: 9 fault kinds x 3 positions x every interleaving (to depth 6 quick / 8 thorough environment events) with a healthy client; seeded beyond with several faults per client. Oracle: healthy clients' output equals the reference (and, in a quarter of the runs, is byte-identical to a re-execution without the faulty clients under another schedule); server future still pending; probe connection served; no foreign frames anywhere. Also: calls without `more` that the service answers through a one-item stream (deferred answers), service streams with truthful size_hint, long-lived server instances (up to 66 000 sequential faulty/healthy connections), and zlink's log statements evaluated at WARN / all / all formatted in a tape-chosen share of the runs. Since round i: service instantiations as in C08; a history flavour (subscribers parked, then a pipelined burst of 64..260 calls handled back to back while stream items become ready and a subscriber's transport rejects writes); optimised-build pass.",
             "Fault list is the property's: garbage, truncated frame then EOF, EOF mid-burst, read error, write error from the k-th write, unknown method, wrong parameter types, wrong-shape JSON, oversize (hook-lowered limit). A client that never drains its socket is not in it."),
     "C10": (True, "exploration", "DESIGN.md §3 C10",
-            "C08's world plus streaming calls answered with a controllable stream (0..4 items with per-item continues flags, ending or never ending), plain calls pipelined before and behind, items released at tape-chosen moments, a write failure at any reply of one client. Oracle: per-client reference including stream items in order with their flags and, once the stream has ended, the replies to the calls behind it; calls behind a never-ending stream owed nothing; after a write failure exactly the frames before it; other clients unaffected. Also: stream items that are triggered by another client's answered call; service streams with default / exact / at-least-one size_hint; deferred (non-more) calls answered by a stream; and one world in eight whose service is a real notified::State of zlink-tokio or zlink-smol (subscribers and setters on one Server::run; per subscriber: received values form a subsequence of the values in the order they were set, each marked continuing, ending with the latest).",
+            "C08's world plus streaming calls answered with a controllable stream (0..4 items with per-item continues flags, ending or never ending), plain calls pipelined before and behind, items released at tape-chosen moments, a write failure at any reply of one client. Oracle: per-client reference including stream items in order with their flags and, once the stream has ended, the replies to the calls behind it; calls behind a never-ending stream owed nothing; after a write failure exactly the frames before it; other clients unaffected. Also: stream items that are triggered by another client's answered call; service streams with default / exact / at-least-one size_hint; deferred (non-more) calls answered by a stream; and one world in eight whose service is a real notified::State of zlink-tokio or zlink-smol (subscribers and setters on one Server::run; per subscriber: received values form a subsequence of the values in the order they were set, each marked continuing, ending with the latest). Since round i: service instantiations as in C08 (incl. a zero-sized reply stream type and boxed streams); optimised-build pass.",
             "Stream items are produced by the environment, so 'other clients are served while a stream is open' is checked as bounded liveness at quiescence. In the notified worlds the stream type is the transport crates' real one; elsewhere it is the stub."),
     "C18": (True, "exploration", "DESIGN.md §3 C18",
-            "C08's world with flooders (20..60 pipelined calls) and single callers whose one complete call appears after a tape-chosen number of flooder replies, optional short-lived and streaming clients. Post-run fairness monitor over the recorded order of service entries, call-readable moments, accepts and connection-set changes: no connection served twice while a single caller waits with the set unchanged; at most N x (transitions + 1) other calls overall. Also: one world in four uses a uniform cooperative-yield transport (every read of every connection yields once, returns at most one frame, no short reads); one run in 32 runs the real Server::run on a real zlink_smol Unix listener with raw client sockets, the quiet client's call being written from inside Service::handle while a flooder's buffered burst is served; waiting calls of up to 1.3 MiB in one run of eight.",
+            "C08's world with flooders (20..60 pipelined calls) and single callers whose one complete call appears after a tape-chosen number of flooder replies, optional short-lived and streaming clients. Post-run fairness monitor over the recorded order of service entries, call-readable moments, accepts and connection-set changes: no connection served twice while a single caller waits with the set unchanged; at most N x (transitions + 1) other calls overall. Also: one world in four uses a uniform cooperative-yield transport (every read of every connection yields once, returns at most one frame, no short reads); one run in 32 runs the real Server::run on a real zlink_smol Unix listener with raw client sockets, the quiet client's call being written from inside Service::handle while a flooder's buffered burst is served; waiting calls of up to 1.3 MiB in one run of eight. Since round i: a history flavour (a crowd of 33..100 simultaneous short-lived connections early in the server's life, then flooders with 500..900 calls each and waiting calls that arrive hundreds of served calls later); service instantiation drawn per world; optimised-build pass.",
             "Waiting party is always a single caller delivered in one piece; read_pending_despite_data is off (a transport that withholds readable bytes makes the call not waiting from the server's point of view). The real-socket slice is smol only (tokio refreshes cached readiness only when its I/O driver runs; whether that counts against the statement is not settled by it)."),
     "C20": (True, "exploration", "DESIGN.md §3 C20",
-            "Real zlink_tokio and zlink_smol notified::{State, Once, Stream} with their real channels, driven poll by poll: every operation sequence over {set, subscribe, poll0, poll1, poll2} up to length 7 (quick) / 9 (thorough), every one-shot sequence over {poll, notify, drop notifier} up to length 3, plus 1.5e5 / 3e6 seeded sequences that also drop subscribers and clone/drop states. Model: values yielded are set values, strictly increasing, marked continuing; no end while a state exists; after draining the last item is the last value set; a pending subscriber is woken by the next set; one-shot = exactly one final item then end; both crates run the same sequence. Also: rhythm sequences (a unit of 1..4 operations repeated up to 1030 times, then drain), states cloned and clones dropped, and a lost-wake-up detector (a subscriber that returned Pending must have its waker invoked by the next set).",
+            "Real zlink_tokio and zlink_smol notified::{State, Once, Stream} with their real channels, driven poll by poll: every operation sequence over {set, subscribe, poll0, poll1, poll2} up to length 7 (quick) / 9 (thorough), every one-shot sequence over {poll, notify, drop notifier} up to length 3, plus 1.5e5 / 3e6 seeded sequences that also drop subscribers and clone/drop states. Model: values yielded are set values, strictly increasing, marked continuing; no end while a state exists; after draining the last item is the last value set; a pending subscriber is woken by the next set; one-shot = exactly one final item then end; both crates run the same sequence. Also: rhythm sequences (a unit of 1..4 operations repeated up to 1030 times, then drain), states cloned and clones dropped, and a lost-wake-up detector (a subscriber that returned Pending must have its waker invoked by the next set). Since round i: the optimised-build pass repeats the systematic sequences and a quarter of the seeded ones.",
             "Single-threaded operation sequences; races inside the channel crates under real parallelism are out of scope."),
     "C19": (True, "exploration", "DESIGN.md §3 C19",
-            "Two tiers in one check. Tier A (10/16 of the runs): real Connection over a simulated bounded pipe whose write half runs the transport crates' write-all loop; capacity 16..4096, sizes around it, raw peer draining at tape-chosen moments, send/flush futures abandoned at tape-chosen pending polls. Tier B (3/16 tokio + 3/16 smol): the real zlink_tokio / zlink_smol unix Stream, Listener, bind, connect and Listener::try_from(OwnedFd) on real kernel sockets, 1..8 connections (socketpair / bound / inherited blocking-mode descriptor), SO_SNDBUF 4 KiB..default, messages 0 B..300 kB (quick) / 1 MiB (thorough), split duplex with both directions busy and end-of-stream after close, unsplit call/reply ping-pong, abandoned sends against a raw peer; one thread issues every syscall in tape order. 1.6e4 (quick) / 4e5 (thorough) seeded runs. Oracle: received sequence = sent sequence; ids distinct; raw peer stream = whole submitted frames, in order, at most once. Also in tier B: receivers that abandon pending receives and start over, a sender that vanishes with unread data in its own queue (kernel reset after the data: everything sent before must still be received). Finally the clause 'connection identifiers are distinct' under concurrent creation: real Connection::new/From/split/join from 2..8 OS threads under Miri, which owns the thread schedule (48 seeds quick / 576 thorough, one -Zmiri-seed = one repeatable interleaving, preemption between any two basic blocks), plus a native run with the threads one after the other.",
+            "Two tiers in one check. Tier A (10/16 of the runs): real Connection over a simulated bounded pipe whose write half runs the transport crates' write-all loop; capacity 16..4096, sizes around it, raw peer draining at tape-chosen moments, send/flush futures abandoned at tape-chosen pending polls. Tier B (3/16 tokio + 3/16 smol): the real zlink_tokio / zlink_smol unix Stream, Listener, bind, connect and Listener::try_from(OwnedFd) on real kernel sockets, 1..8 connections (socketpair / bound / inherited blocking-mode descriptor), SO_SNDBUF 4 KiB..default, messages 0 B..300 kB (quick) / 1 MiB (thorough), split duplex with both directions busy and end-of-stream after close, unsplit call/reply ping-pong, abandoned sends against a raw peer; one thread issues every syscall in tape order. 1.6e4 (quick) / 4e5 (thorough) seeded runs. Oracle: received sequence = sent sequence; ids distinct; raw peer stream = whole submitted frames, in order, at most once. Also in tier B: receivers that abandon pending receives and start over, a sender that vanishes with unread data in its own queue (kernel reset after the data: everything sent before must still be received). Finally the clause 'connection identifiers are distinct' under concurrent creation: real Connection::new/From/split/join from 2..8 OS threads under Miri, which owns the thread schedule (48 seeds quick / 576 thorough, one -Zmiri-seed = one repeatable interleaving, preemption between any two basic blocks), plus a native run with the threads one after the other. Since round i: a peer that closes its sending direction only (shutdown(SHUT_WR)) and keeps reading - the zlink end receives what was sent, sees the end of the stream and must still get its own messages through (both backends, halves split from the start or re-joined); optimised-build pass for both tiers.",
             "Tier B's kernel is real, not stubbed; it is treated as a deterministic function of one thread's syscall sequence and that is re-checked on a sample of every batch. Blocked syscalls are caught by a wall-clock watchdog (120 s quick / 900 s thorough per execution). Concurrent connection creation is scheduled by Miri, not by the tape (its own seed range, derived from VERIF_SEED)."),
 }
 
